@@ -251,31 +251,31 @@ Proof.
     apply Qeq_bool_iff in F. assert (a == b) by lra. apply Qeq_bool_iff in H. congruence.
 Qed.
 
-Definition sh (o : Q) (s : sample) : sample := mkS (s_t s + o) (s_v s) (s_st s).
+Definition sh1 (o : Q) (s : sample) : sample := mkS (s_t s + o) (s_v s) (s_st s).
 
-Lemma insert_s_shift : forall o a l, insert_s (sh o a) (map (sh o) l) = map (sh o) (insert_s a l).
+Lemma insert_s_shift : forall o a l, insert_s (sh1 o a) (map (sh1 o) l) = map (sh1 o) (insert_s a l).
 Proof.
   intros o a l. induction l as [|b t IH]; simpl; [reflexivity|].
   rewrite qle_bool_shift. destruct (Qle_bool (s_t a) (s_t b)); simpl; [reflexivity | rewrite IH; reflexivity].
 Qed.
-Lemma sort_s_shift : forall o l, sort_s (map (sh o) l) = map (sh o) (sort_s l).
+Lemma sort_s_shift : forall o l, sort_s (map (sh1 o) l) = map (sh1 o) (sort_s l).
 Proof.
   intros o l. induction l as [|a t IH]; simpl; [reflexivity|].
   unfold sort_s in *. simpl. rewrite IH. apply insert_s_shift.
 Qed.
-Lemma keep_last_shift : forall o l, keep_last (map (sh o) l) = map (sh o) (keep_last l).
+Lemma keep_last_shift : forall o l, keep_last (map (sh1 o) l) = map (sh1 o) (keep_last l).
 Proof.
   intros o l. induction l as [|a t IH]; [reflexivity|].
   destruct t as [|b r]; [reflexivity|].
   change (keep_last (a :: b :: r)) with
     (if Qeq_bool (s_t a) (s_t b) then keep_last (b :: r) else a :: keep_last (b :: r)).
-  change (keep_last (map (sh o) (a :: b :: r))) with
-    (if Qeq_bool (s_t a + o) (s_t b + o) then keep_last (map (sh o) (b :: r))
-     else sh o a :: keep_last (map (sh o) (b :: r))).
+  change (keep_last (map (sh1 o) (a :: b :: r))) with
+    (if Qeq_bool (s_t a + o) (s_t b + o) then keep_last (map (sh1 o) (b :: r))
+     else sh1 o a :: keep_last (map (sh1 o) (b :: r))).
   rewrite qeq_bool_shift, IH. destruct (Qeq_bool (s_t a) (s_t b)); reflexivity.
 Qed.
 Lemma filter_shift : forall o f l,
-  filter (fun s => f (s_st s)) (map (sh o) l) = map (sh o) (filter (fun s => f (s_st s)) l).
+  filter (fun s => f (s_st s)) (map (sh1 o) l) = map (sh1 o) (filter (fun s => f (s_st s)) l).
 Proof.
   intros o f l. induction l as [|a t IH]; simpl; [reflexivity|].
   destruct (f (s_st a)); simpl; rewrite IH; reflexivity.
@@ -284,7 +284,7 @@ Qed.
 (* the clean-up does not care where the time axis starts: cleaning the shifted samples = shifting the cleaned ones *)
 Lemma clean_shift : forall hs o l, clean hs (shift o l) = shift o (clean hs l).
 Proof.
-  intros hs o l. unfold clean, shift. change (fun s => mkS (s_t s + o) (s_v s) (s_st s)) with (sh o).
+  intros hs o l. unfold clean, shift. change (fun s => mkS (s_t s + o) (s_v s) (s_st s)) with (sh1 o).
   rewrite sort_s_shift, keep_last_shift. destruct hs; [apply (filter_shift o status_ok)|reflexivity].
 Qed.
 
@@ -305,7 +305,7 @@ Proof.
 Qed.
 
 Lemma interp_from_shift : forall o l x0 y0 x,
-  interp_from (x0 + o) y0 (nodes_of (map (sh o) l)) x == interp_from x0 y0 (nodes_of l) (x - o).
+  interp_from (x0 + o) y0 (nodes_of (map (sh1 o) l)) x == interp_from x0 y0 (nodes_of l) (x - o).
 Proof.
   intros o l. induction l as [|a t IH]; intros x0 y0 x; simpl; [reflexivity|].
   rewrite qle_bool_shift_r. destruct (Qle_bool (s_t a) (x - o)); [apply IH | apply seg_shift].
@@ -315,7 +315,7 @@ Qed.
 Lemma offset_is_time_shift : forall hs o l x,
   interp_d (nodes_of (clean hs (shift o l))) x == interp_d (nodes_of (clean hs l)) (x - o).
 Proof.
-  intros hs o l x. rewrite clean_shift. unfold shift. change (fun s => mkS (s_t s + o) (s_v s) (s_st s)) with (sh o).
+  intros hs o l x. rewrite clean_shift. unfold shift. change (fun s => mkS (s_t s + o) (s_v s) (s_st s)) with (sh1 o).
   destruct (clean hs l) as [|a t]; unfold interp_d; simpl; [reflexivity|].
   rewrite qle_bool_shift_r. destruct (Qle_bool (s_t a) (x - o)); [apply interp_from_shift | reflexivity].
 Qed.
@@ -323,7 +323,7 @@ Qed.
 Lemma shift_zero_nodes : forall l x, interp_d (nodes_of (shift 0 l)) x == interp_d (nodes_of l) x.
 Proof.
   intros l x. pose proof (interp_from_shift 0) as H.
-  unfold shift. change (fun s => mkS (s_t s + 0) (s_v s) (s_st s)) with (sh 0).
+  unfold shift. change (fun s => mkS (s_t s + 0) (s_v s) (s_st s)) with (sh1 0).
   destruct l as [|a t]; unfold interp_d; simpl; [reflexivity|].
   rewrite qle_bool_shift_r.
   assert (E : Qle_bool (s_t a) (x - 0) = Qle_bool (s_t a) x).
@@ -454,3 +454,70 @@ Lemma virtual_preserves_sources_code : forall vf name l ops c,
   r_lookup name (c_raw c') = Some (EVals l) /\ c_store c' = c_store c /\
   forall fuel s, get vf false fuel c' name s true p_empty = (c', RVals (if s then select_mask (c_keep c') l else l)).
 Proof. exact virtual_preserves_sources. Qed.
+
+(* ================================================================== 4. the public API: raw samples over histories *)
+From KV Require Import Model.SensorKeep Model.SensorTmpl Model.SensorApi.
+
+Lemma core_get_store : forall vf c virt name extract kw,
+  c_store (fst (core_get vf c virt name extract kw)) = c_store c.
+Proof.
+  intros. unfold core_get.
+  pose proof (get_frame vf 1 (core c virt) name false extract kw) as F.
+  destruct (get vf false 1 (core c virt) name false extract kw) as [c' r]. cbn [fst] in *.
+  destruct F as [F _]. unfold core in *. cbn [c_store] in *. exact F.
+Qed.
+
+(* one call of the public get / cache[name] / _set_keep: the getters known before keep their samples; at most one
+   NEW getter (the katstore answer) is appended *)
+Lemma xstep_store : forall vf x o,
+  exists tail, c_store (x_c (fst (fst (xstep vf x o)))) = (c_store (x_c x) ++ tail)%list.
+Proof.
+  intros vf x o.
+  assert (G : forall name select extract kw,
+             exists tail, c_store (x_c (fst (fst (get_x vf x name select extract kw)))) = (c_store (x_c x) ++ tail)%list).
+  { intros name select extract kw. unfold get_x.
+    destruct (select && negb extract); [exists []; rewrite app_nil_r; reflexivity|].
+    destruct (r_lookup name (c_raw (x_c x))).
+    - pose proof (core_get_store vf (x_c x) [] name extract kw) as H.
+      destruct (core_get vf (x_c x) [] name extract kw) as [c' r]. cbn in *. exists []. rewrite app_nil_r. exact H.
+    - destruct (resolve (x_tmpl x) name) as [[tid b]|].
+      + pose proof (core_get_store vf (x_c x) [mkV [name] [] (Z.of_nat tid)] name extract kw) as H.
+        destruct (core_get vf (x_c x) [mkV [name] [] (Z.of_nat tid)] name extract kw) as [c' r]. cbn in *.
+        exists []. rewrite app_nil_r. exact H.
+      + destruct (store_active (x_store x)); [|exists []; rewrite app_nil_r; reflexivity].
+        destruct (store_window (c_ts (x_c x)) (x_dp x)) as [[s e]|]; [|exists []; rewrite app_nil_r; reflexivity].
+        destruct (negb (is_identifier name)); [exists []; rewrite app_nil_r; reflexivity|].
+        destruct (store_samples (srv_answer (x_srv x) name s e) name) as [|s0 smp] eqn:Es;
+          [exists []; rewrite app_nil_r; reflexivity|].
+        match goal with |- context [core_get vf ?c1 [] name extract kw] =>
+          pose proof (core_get_store vf c1 [] name extract kw) as H;
+          destruct (core_get vf c1 [] name extract kw) as [c2 r] end.
+        cbn [fst c_store] in H. exists [mkG DFloat true (s0 :: smp)].
+        destruct extract; cbn; exact H. }
+  destruct o as [n s e kw|n|[k|]]; cbn [xstep].
+  - apply G.
+  - apply G.
+  - exists []. rewrite app_nil_r. reflexivity.
+  - exists []. rewrite app_nil_r. reflexivity.
+Qed.
+
+(* EXTRACTION NEVER ALTERS THE RAW SAMPLES, public API, all histories: after any sequence of get (any select /
+   extract / keyword properties), cache[name] and _set_keep (any keep form) - raw sensors, template sensors and
+   katstore fallbacks interleaved - every getter that existed before still holds exactly its samples *)
+Lemma xrun_store : forall vf ops x,
+  exists tail, c_store (x_c (fst (xrun vf x ops))) = (c_store (x_c x) ++ tail)%list.
+Proof.
+  intros vf ops. induction ops as [|o t IH]; intros x; simpl; [exists []; rewrite app_nil_r; reflexivity|].
+  destruct (xstep_store vf x o) as [t1 H1].
+  destruct (xstep vf x o) as [[x1 r] cr]. cbn [fst] in H1.
+  destruct (IH x1) as [t2 H2]. destruct (xrun vf x1 t) as [x2 rs]. cbn [fst] in *.
+  exists (t1 ++ t2)%list. rewrite H2, H1, app_assoc. reflexivity.
+Qed.
+
+Lemma xrun_raw_samples : forall vf ops x gid g,
+  nth_error (c_store (x_c x)) gid = Some g ->
+  nth_error (c_store (x_c (fst (xrun vf x ops)))) gid = Some g.
+Proof.
+  intros vf ops x gid g H. destruct (xrun_store vf ops x) as [tail E]. rewrite E.
+  rewrite nth_error_app1; [exact H|]. apply nth_error_Some. congruence.
+Qed.
